@@ -37,6 +37,14 @@ def check_poly(e, ty, ncoef, label, funcs, lanes_up_to=None):
         vals = [float(model_value(model, c) or 0) for c in cs] + [float(model_value(model, x) or 0)]
         return replay_eval(e, ty, vals, ob)
 
+    # counterexamples are preferred inside the property's proviso (no partial term overflows or underflows in binary64): the real
+    # encoding has no overflow, so an unconstrained model of a deviation that only exists for |x| > 1e38 may sit at 1e100, where the
+    # native run only shows inf/NaN.  |c_i| in {0} u [2^-20, 1], 2^-(1000/n) <= |x| <= 2^(1020/n) keeps every |c_i x^i| in range.
+    ax = z3.If(x >= 0, x, -x)
+    hi = 2 ** (1020 // max(n, 1))
+    lo = z3.Q(1, 2 ** (1000 // max(n, 1)))
+    in_range = [ax <= hi, ax >= lo] + [z3.And(c <= 1, c >= -1, z3.Or(c == 0, c >= z3.Q(1, 2 ** 20), c <= -z3.Q(1, 2 ** 20))) for c in cs]
+
     # (a) exact-arithmetic meaning of the code = sum c_i x^i
     try:
         dom = RealDomain(False)
@@ -53,7 +61,7 @@ def check_poly(e, ty, ncoef, label, funcs, lanes_up_to=None):
             "%s::evaluate, all real c[0..%d], x: the exact-arithmetic value of the code's operation tree equals sum_i c_i*x^i "
             "(hence the result is exact whenever every partial term is representable)" % (label, n),
             p.side, nums[0].t == math_val, dom_name="real", functions=funcs, witness_terms=wt,
-            role="eval-value:" + label, replay=replay)
+            role="eval-value:" + label, replay=replay, prefer=in_range)
     if ncoef == 0:
         return
     # (b) rounding: per-monomial factor bound, with the same rounding variables in every lane
@@ -78,7 +86,7 @@ def check_poly(e, ty, ncoef, label, funcs, lanes_up_to=None):
         e.prove("%s:lane%d-shape" % (label, i),
                 "lane %d of %s: P_d(c_%d e_%d, x) == c_%d * x^%d * F_%d(d)" % (i, label, i, i, i, i, i),
                 [], lanes[i] == cs[i] * pw[i] * Fi, dom_name="real-delta", functions=funcs,
-                witness_terms={"c%d" % i: cs[i], "x": x}, role="eval-lane-shape:" + label, replay=replay)
+                witness_terms={"c%d" % i: cs[i], "x": x}, role="eval-lane-shape:" + label, replay=replay, prefer=in_range)
         nd = len(set(str(d) for d in z3.z3util.get_vars(Fi)))
         e.prove("%s:lane%d-bound" % (label, i),
                 "for all rounding variables |d|<=2^-53: |F_%d(d) - 1| <= %d*2^-53 = 4(n+2)u (the x^%d lane of %s; "
@@ -108,6 +116,10 @@ def replay_eval(e, ty, vals, ob):
     for prof, o in (("dev", out), ("release", out_r)):
         if isinstance(o, str):
             bad.append("%s: %s" % (prof, o))
+        elif o[0] in (float("inf"), float("-inf")):
+            # an infinite result where every partial term is finite and far from the overflow threshold
+            if mag < Fraction(2) ** 1000:
+                bad.append("%s build returns %r, exact value %s (all partial terms below 2^1000)" % (prof, o[0], show(exact)))
         elif o[0] != o[0] or abs(Fraction(o[0]) - exact) > bound:
             bad.append("%s build returns %r, exact value %s, bound %.3g" % (prof, o[0], show(exact), float(bound)))
     path = e.write_replay(ob.name, {"kind": "E2-native", "requests": [["eval", ty, vals]],
